@@ -39,6 +39,14 @@ def case_strategy(draw, tier):
         adds.append(r)
     if draw(st.integers(0, 3)) == 0:
         adds.insert(draw(st.integers(0, len(adds))), {"k": "reuse", "i": draw(st.integers(0, 9))})
+    if draw(st.integers(0, 3)) == 0:
+        # a BUNDLE: an unnamed (or named) conjunction / disjunction whose members are all rules themselves; a member may
+        # even carry the id of an existing top-level rule - only the bundle's own id matters for the refusal
+        L_ = lambda i: {"k": "leaf", "id": i, "b": [0, 1]}
+        m1 = {"k": "Imply", "id": "q_needs_x", "c": [L_("a"), L_("b")]}
+        m2 = {"k": "AtMost", "v": 1, "id": draw(st.sampled_from(["not_both", "not_both"] + top_ids[:1])), "c": [L_("c"), L_("a")]}
+        bundle = {"k": draw(st.sampled_from(["All", "All", "Any"])), "id": draw(st.sampled_from([None, None, "bundle"])), "c": [m1, m2] + ([L_("d")] if draw(st.integers(0, 3)) == 0 else [])}
+        adds.insert(draw(st.integers(0, len(adds))), bundle)
     prios = [list(kv) for kv in sorted(draw(st.dictionaries(st.sampled_from(["a", "b", "c", "d", "e", "f"]),
                                                             st.sampled_from([1, 2, -1]), max_size=3)).items())]
     return {"model": base, "adds": adds, "prios": prios}
